@@ -345,3 +345,109 @@ def _hs_ensures(self):
 
 HeadSimplifyDown.ensures = _hs_ensures
 SPECS.append(HeadSimplifyDown())
+
+
+class TailSimplifyDown(HeadSimplifyDown):
+    """tail(n) of an elementwise operation = the operation on tail(n) of every row operand (same n), under the same
+    conditions as for head; tail(n) of tail(m) = tail(min(n, m))."""
+
+    file, qualname, props = E, "Tail._simplify_down", ["C11", "C01"]
+
+    def cases(self):
+        yield {"frame": "Elemwise", "b_is_row_operand": True}
+        yield {"frame": "Elemwise", "b_is_row_operand": False}
+        yield {"frame": "Tail", "b_is_row_operand": True}
+        yield {"frame": "Other", "b_is_row_operand": True}
+
+    def make_inputs(self, ex, sym, fr):
+        k = self.case
+        if k["frame"] != "Tail":
+            env = super().make_inputs(ex, sym, fr)
+            env["self"].cls = ("Expr", "Tail")
+            return env
+        na = z3.Const("name_a", Lab)
+        n, inner_n = sym.int("n"), sym.int("inner_n")
+        inner = Obj("inner_frame", {"_name": z3.Const("name_inner", Lab)}, cls=("Expr",))
+        frame = Obj("frame", {"frame": inner, "n": inner_n, "npartitions": 1}, cls=("Expr", "Tail"))
+        self._rows = ()
+        return {"self": Obj("self", {"frame": frame, "n": n, "npartitions": 1}, cls=("Expr", "Tail")), "n": n, "inner": inner, "inner_n": inner_n}
+
+    def call(self, ex, fr, name, args, kwargs):
+        if name == "Tail":
+            return Term("Tail", args)
+        return super().call(ex, fr, name, args, kwargs)
+
+    def ensures(self):
+        k = self.case
+
+        def is_tail(c, t, op, env):
+            return isinstance(t, Term) and t.cls == "Tail" and len(t.args) == 2 and t.args[0] is op and c.eq(t.args[1], env["n"])
+
+        def pushed(c, env, r):
+            if not c.symbolic or k["frame"] != "Elemwise":
+                return True
+            same_rows = (ROOT(env["na"]) == ROOT(env["nb"])) if k["b_is_row_operand"] else z3.BoolVal(True)
+            one_part_ambiguous = z3.And(env["fn"] == 1, z3.BoolVal(not k["b_is_row_operand"]))
+            if r is None:
+                return z3.Or(z3.Not(same_rows), one_part_ambiguous)
+            if not (isinstance(r, Term) and r.cls == "Rebuilt" and len(r.args) == 3):
+                return False
+            ra, rb, rl = r.args
+            if k["b_is_row_operand"]:
+                okb = is_tail(c, rb, env["b"], env)
+            elif isinstance(rb, Ite):
+                okb = c.And(z3.Not(rb.c), rb.b is env["b"])
+            else:
+                okb = rb is env["b"]
+            return c.And(same_rows, z3.Not(one_part_ambiguous), is_tail(c, ra, env["a"], env), okb, rl is env["lit"])
+
+        def tail_of_tail(c, env, r):
+            if not c.symbolic or k["frame"] != "Tail":
+                return True
+            if not (isinstance(r, Term) and r.cls == "Tail" and len(r.args) == 2):
+                return False
+            return c.And(r.args[0] is env["inner"], c.eq(r.args[1], z3.If(env["n"] < env["inner_n"], env["n"], env["inner_n"])))
+
+        def other(c, env, r):
+            return True if (not c.symbolic or k["frame"] != "Other") else r is None
+
+        return {"same-n-in-every-row-operand-only-when-all-share-their-rows": pushed, "tail-of-tail-takes-the-smaller-n": tail_of_tail, "other-frames-are-left-alone": other,
+                "last-n-rows-of-the-last-partition": lambda c, env, r: True if c.symbolic else _tail_concrete(env)}
+
+    def concrete_inputs(self):
+        for prog in ("add_cols", "add_scalar", "add_reduction", "filtered_plus_unfiltered", "tail_of_tail", "assign"):
+            for n in (2, 3):
+                yield {"program": prog, "n": n}
+
+    def run_concrete(self, inputs):
+        import pandas as pd
+
+        import dask_expr as dx
+        from dask_expr._expr import Tail
+
+        pdf = pd.DataFrame({"a": range(12), "b": [float(x) for x in range(12)]})
+        df = dx.from_pandas(pdf, npartitions=3)
+        x = {"add_cols": lambda: df.a + df.b, "add_scalar": lambda: df.a + 1, "add_reduction": lambda: df.a + df.a.sum(), "filtered_plus_unfiltered": lambda: df.a[df.a > 1] + df.a,
+             "tail_of_tail": lambda: dx.new_collection(Tail(df.expr, 3)), "assign": lambda: df.assign(z=df.a + df.b)}[inputs["program"]]()
+        e = Tail(x.expr, inputs["n"])
+        out = e._simplify_down()
+        return {"expr": e, "out": out}, out
+
+
+def _tail_concrete(env):
+    import dask
+    import pandas as pd
+
+    e, out = env["expr"], env["out"]
+    if out is None:
+        return True
+    f = e.frame.lower_completely()
+    parts = dask.get(dict(f.__dask_graph__()), f.__dask_keys__())
+    want = parts[-1].tail(e.n)
+    o = out.lower_completely()
+    got = dask.get(dict(o.__dask_graph__()), o.__dask_keys__())
+    got = pd.concat(got) if len(got) > 1 else got[0]
+    return got.equals(want)
+
+
+SPECS.append(TailSimplifyDown())
